@@ -1,8 +1,90 @@
-(* Props/C18.v — property C18: Intel HEX files round-trip and are standard-conforming. *)
-From PV Require Import Lib.Py Spec.IhexSpec Model.Hexfile Proofs.C18_hexfile Proofs.C18_refuted.
+(* Props/C18.v — property C18: Intel HEX files round-trip and are standard-conforming.
+   Only statements, [exact] of a lemma from Proofs/, and Print Assumptions.
+   Model.Hexfile is the hand model (tie H) of ppci/format/hexfile.py with fixes C18-1 (check) and C18-2
+   (start address record) applied; check_orig / save_orig are the functions before the fixes. The model is
+   cross-checked against the implementation on every run of ./check C18. Spec.IhexSpec is the I32HEX
+   format definition with its reference reader ([read_line]: hex text, length byte, checksum) and the
+   denotation [denote_file] (blocks of bytes at absolute addresses, start address).
+   Scope: c18_load_save is proved only as a bounded statement (computation over the 1926 HexFiles of
+   Proofs.C18_bounded.family); the unbounded round trip load (save hf) = hf is NOT proved (partial). *)
+From PV Require Import Lib.Py Spec.IhexSpec Model.Hexfile Proofs.C18_hexfile Proofs.C18_refuted
+  Proofs.C18_bounded.
 Open Scope Z_scope.
 
+(* valid_line l = 0 <= address < 65536, typ a byte, data bytes, fewer than 256 of them *)
+Theorem c18_line_roundtrip : forall l, valid_line l ->
+  exists s, to_line l = Ok s /\ from_line s = Ok l.
+Proof. exact line_roundtrip. Qed.
+Print Assumptions c18_line_roundtrip.
+
+(* every emitted line is accepted by the reference reader: length byte and two's-complement
+   checksum are correct, and it carries the same offset, type and data *)
+Theorem c18_line_checksum_length : forall l, valid_line l ->
+  exists s, to_line l = Ok s /\ read_line s = Some (mk_irec (address l) (typ l) (data l)).
+Proof. exact line_checksum_length. Qed.
+Print Assumptions c18_line_checksum_length.
+
+(* whenever check accepts a list of non-empty regions, the result holds exactly the same bytes at the
+   same addresses and is canonical: non-empty, ascending, with a gap between neighbours (all adjacent
+   regions merged, nothing overlapping) *)
+Theorem c18_check_merges : forall rs rs', nonempty rs -> check rs = Ok rs' ->
+  (forall a x, holds rs' a x <-> holds rs a x) /\ canonical rs'.
+Proof. exact check_merges. Qed.
+Print Assumptions c18_check_merges.
+
+(* the fuel given to the merging loop always suffices *)
+Theorem c18_check_terminates : forall rs, check rs <> OutOfFuel.
+Proof. exact check_terminates. Qed.
+Print Assumptions c18_check_terminates.
+
+(* hexfile_ok hf = every region non-empty, made of bytes, inside [0, 2^32); 0 <= start_address < 2^32.
+   The saved file is conforming I32HEX (the reference reader accepts it) and denotes the bytes of
+   hf.regions at their addresses — also for regions crossing 64 KiB boundaries — plus the start address
+   (absent when it is 0, which is what load assumes) *)
+Theorem c18_save_denotes : forall hf, hexfile_ok hf ->
+  exists lines blocks, save hf = Ok lines /\
+    denote_file lines = Some (blocks, if start_address hf =? 0 then None else Some (start_address hf)) /\
+    forall a, lookup blocks a = lookup (regions hf) a.
+Proof. exact save_denotes. Qed.
+Print Assumptions c18_save_denotes.
+
+(* bounded: load (save hf) = hf, regions and start address, for the 1926 canonical HexFiles of
+   [family] (1..5 regions, 21 anchor addresses around 0 / 64 KiB multiples / 16 MiB / 2^32, 11 sizes up to
+   95 bytes and one 65600-byte region, start addresses 0, 1, 0x1234, 2^32-1) *)
+Theorem c18_load_save_bounded : forall hf, In hf family -> exists lines, save hf = Ok lines /\
+  exists hf', load lines = Ok hf' /\ hexfile_eqb hf' hf = true.
+Proof. exact load_save_bounded. Qed.
+Print Assumptions c18_load_save_bounded.
+
+(* ---- the functions as they were before the fixes violate the property *)
 Theorem c18_check_merges_refuted : exists rs rs' a x,
   check_orig rs = Ok rs' /\ holds rs a x /\ ~ holds rs' a x.
 Proof. exact check_orig_not_merging. Qed.
 Print Assumptions c18_check_merges_refuted.
+
+Theorem c18_add_region_refuted : exists hf1 hf2 hf3,
+  add_region_orig empty_hexfile 0 (snd (r16 0)) = Ok hf1 /\
+  add_region_orig hf1 32 (snd (r16 32)) = Ok hf2 /\
+  add_region_orig hf2 16 (snd (r16 16)) = Ok hf3 /\
+  lookup [r16 0; r16 32; r16 16] 40 = Some 40 /\ lookup (regions hf3) 40 = None.
+Proof. exact check_orig_loses_data. Qed.
+Print Assumptions c18_add_region_refuted.
+
+Theorem c18_load_save_refuted : exists hf lines hf',
+  save_orig hf = Ok lines /\ load lines = Ok hf' /\
+  start_address hf = 4660 /\ start_address hf' = 0 /\
+  (forall img, denote_file lines = Some img -> snd img = None).
+Proof. exact save_orig_drops_start. Qed.
+Print Assumptions c18_load_save_refuted.
+
+(* hypotheses are inhabited: a 100-byte region crossing 64 KiB, merged from three insertions *)
+Example c18_nonvacuous :
+  let d := map (fun i => (3 * i + 1) mod 256) (rangeZ 0 100) in
+  match (hf <- add_region empty_hexfile 65500 (firstn 30 d) ;;
+         hf <- add_region hf 65570 (skipn 70 d) ;;
+         add_region hf 65530 (firstn 40 (skipn 30 d))) with
+  | Ok hf => region_eqb (hd dflt (regions hf)) (65500, d) && (len (regions hf) =? 1) &&
+             roundtrips (mkHexFile (regions hf) 4660)
+  | _ => false
+  end = true.
+Proof. vm_compute. reflexivity. Qed.
